@@ -5,9 +5,12 @@
 EXTENDS Redirect, Integers
 Emitted == ndJsonDeserialize("trace.ndjson")
 VARIABLES i, last
-Init2 == i = 1 /\ last = [s |-> <<>>, wl |-> "none", eid |-> 0] /\ c = [s |-> <<>>, wl |-> "none"]
+Init2 == i = 1 /\ last = [s |-> <<>>, wl |-> "none", eid |-> 0, own |-> <<>>] /\ c = [s |-> <<>>, wl |-> "none"]
 Next2 == i <= Len(Emitted) /\ last' = Emitted[i] /\ i' = i + 1 /\ UNCHANGED c
 Spec2 == Init2 /\ [][Next2]_<<i, last, c>>
-Mon_EmittedSafe == last.s = <<>> \/ Safe(BrowserResolve(last.s), last.wl)
+\* own: the host name the request was made to when that is a name of the alphabet (<<>> otherwise): a target that resolves to that very
+\* host is "a path on the host the request was made to", whitelisted or not
+OnOwnHost(r, own) == own # <<>> /\ r.kind = "host" /\ r.host = own /\ r.port = ""
+Mon_EmittedSafe == last.s = <<>> \/ Safe(BrowserResolve(last.s), last.wl) \/ OnOwnHost(BrowserResolve(last.s), last.own)
 TraceAccepted == TLCGet("stats").diameter - 1 = Len(Emitted)
 =============================================================================
